@@ -1750,6 +1750,11 @@ impl<'a> Parser<'a> {
             }
         }
 
+        // Shorthand ambient module without a body: declare module "*.css";
+        if !self.check(&TokenKind::LBrace) {
+            return self.expect_semicolon();
+        }
+
         // Body
         self.require_token(&TokenKind::LBrace)?;
         while !self.check(&TokenKind::RBrace) && !self.is_at_end() {
@@ -1763,6 +1768,28 @@ impl<'a> Parser<'a> {
 
     /// Parse a member of an ambient namespace body
     fn parse_ambient_namespace_member(&mut self) -> Result<(), JsError> {
+        // Imports and export lists of an ambient module: parsed as usual, without any effect
+        if self.check(&TokenKind::Import) {
+            self.parse_import()?;
+            return Ok(());
+        }
+        if self.check(&TokenKind::Export) {
+            let checkpoint = self.lexer.checkpoint();
+            let mut next = self.lexer.next_token().kind;
+            if next == TokenKind::Type {
+                // export type { A, B }
+                next = self.lexer.next_token().kind;
+            }
+            self.lexer.restore(checkpoint);
+            if matches!(
+                next,
+                TokenKind::LBrace | TokenKind::Star | TokenKind::Default
+            ) {
+                self.parse_export()?;
+                return Ok(());
+            }
+        }
+
         // Skip export if present
         self.match_token(&TokenKind::Export);
 
